@@ -511,7 +511,9 @@ fn fam_boxed(ctx: &Ctx) {
         v
     };
     let maxlen = 140;
-    let sets: Vec<Vec<Limbs>> = (0..=maxlen).map(|n| if n == 0 || (!th && !eq_lens.contains(&n) && ![24, 34, 35, 48, 49, 64, 65, 70].contains(&n)) { vec![] } else { boxed_operands(n, ctx) }).collect();
+    // thorough: every length 1..=140 is visited; from 24 limbs on the operand sets are stride-thinned to 500 values
+    // (the complete products took 26 min)
+    let sets: Vec<Vec<Limbs>> = (0..=maxlen).map(|n| if n == 0 || (!th && !eq_lens.contains(&n) && ![24, 34, 35, 48, 49, 64, 65, 70].contains(&n)) { vec![] } else if th && n >= 24 { thin(boxed_operands(n, ctx), 500) } else { boxed_operands(n, ctx) }).collect();
     let mut pairs: Vec<(usize, usize)> = eq_lens.iter().map(|&n| (n, n)).collect();
     // unequal lengths around the Karatsuba thresholds (trailing-limb paths), both orders
     let ua: Vec<usize> = if th { (30..=37).collect() } else { vec![31, 32, 33, 34, 35] };
